@@ -185,6 +185,9 @@ func (j *Judge) Launch(c *Context, res *drummer.VerifSchedResult, exhausted bool
 			}
 			if !c.live(h) {
 				j.fail("C08", "plan_valid", "dead-host", fmt.Sprintf("shard %d placed on %s, silent for %d", sid, r.RaftAddress, c.Tick-h.Tick))
+				if c.Tick-h.Tick > TTL {
+					j.fail("C05", "silent_host_never_used", "silent-host-used-for-placement", fmt.Sprintf("launch places shard %d on %s which has been silent for %d (timeout %d)", sid, r.RaftAddress, c.Tick-h.Tick, TTL))
+				}
 			}
 			if hosts(h, sid) {
 				j.fail("C08", "plan_valid", "host-already-hosts-shard", fmt.Sprintf("shard %d placed on %s which already hosts it", sid, r.RaftAddress))
@@ -281,6 +284,9 @@ func (j *Judge) Maintain(c *Context, res *drummer.VerifSchedResult, exhausted bo
 			h := c.NodeHostImage.Nodehosts[m.Address]
 			if h == nil || !c.available(h) {
 				j.fail("C12", "restore_target_ok", "restore-dead-host", fmt.Sprintf("restore request for (%d,%d) on %s which is not live", sid, rid, m.Address))
+				if h != nil && c.Tick-h.Tick > TTL {
+					j.fail("C05", "silent_host_never_used", "silent-host-used-for-restore", fmt.Sprintf("restore request for (%d,%d) on %s which has been silent for %d (timeout %d)", sid, rid, m.Address, c.Tick-h.Tick, TTL))
+				}
 			} else if !hasLog(h, sid, rid) {
 				j.fail("C12", "restore_target_ok", "restore-without-log", fmt.Sprintf("restore request for (%d,%d) on %s which reported no persisted log for it", sid, rid, m.Address))
 			}
@@ -349,6 +355,9 @@ func (j *Judge) Maintain(c *Context, res *drummer.VerifSchedResult, exhausted bo
 			h := c.NodeHostImage.Nodehosts[r.AddressList[0]]
 			if h == nil || !c.live(h) {
 				j.fail("C02", "add_justified", "add-dead-host", fmt.Sprintf("add-member request for shard %d onto %s which is not live", sid, r.AddressList[0]))
+				if h != nil && c.Tick-h.Tick > TTL {
+					j.fail("C05", "silent_host_never_used", "silent-host-used-for-placement", fmt.Sprintf("add-member request for shard %d onto %s which has been silent for %d (timeout %d)", sid, r.AddressList[0], c.Tick-h.Tick, TTL))
+				}
 			} else if hosts(h, sid) {
 				j.fail("C02", "no_colocation", "add-host-hosts-shard", fmt.Sprintf("add-member request for shard %d onto %s which already hosts a replica of it", sid, r.AddressList[0]))
 			}
